@@ -452,8 +452,11 @@ impl BinArchive {
 
     pub fn read_bytes(&self, address: usize, amount: usize) -> Result<&[u8]> {
         validate_address(address, self.size(), false)?;
-        validate_address(address + amount, self.size(), true)?;
-        Ok(&self.data[address..(address + amount)])
+        let end = address
+            .checked_add(amount)
+            .ok_or(ArchiveError::OutOfBoundsAddress(amount, self.size()))?;
+        validate_address(end, self.size(), true)?;
+        Ok(&self.data[address..end])
     }
 
     pub fn read_string(&self, address: usize) -> Result<Option<String>> {
